@@ -32,6 +32,7 @@ type c08case struct {
 	BadPermille int    `json:"bad_target_line_permille"`
 	LatencyUs   int    `json:"max_probe_latency_us"`
 	Rate        int    `json:"rate_per_second"` // 0 = limiter off
+	RateWindowMs int   `json:"rate_window_ms,omitempty"` // with Rate: Rate probes per this window (default 1000)
 	SlowOutUs   int    `json:"output_write_delay_us"`
 	StallAtLine int    `json:"output_stalls_at_line"`
 	StallMs     int    `json:"output_stall_ms"`
@@ -104,6 +105,9 @@ func newGenericRig(ctx context.Context, dir string, c c08case) *genericRig {
 	g.logger = &recLogger{inner: real, clock: g.clock}
 	if c.Rate > 0 {
 		g.opts.rateCount, g.opts.rateWindow = c.Rate, time.Second
+		if c.RateWindowMs > 0 {
+			g.opts.rateWindow = time.Duration(c.RateWindowMs) * time.Millisecond
+		}
 	}
 	g.engine = g.opts.newScanEngine(ctx, g.scanner)
 	g.spy = newEngineSpy(g.engine, g.clock, func() int32 { return g.scanner.inflight })
@@ -310,6 +314,11 @@ func c08cases(run *vlab.Run) []c08case {
 			c.StallAtLine, c.StallMs, c.LatencyUs = 1+rng.Intn(50), 20+rng.Intn(40), 0
 		}
 		cases = append(cases, c)
+	}
+	// rates slower than one probe per second (e.g. --rate 30/m, --rate 1/2s) with the default and other worker counts
+	for _, w := range []int{1, 100} {
+		cases = append(cases, c08case{N: 2, Workers: w, PosPermille: 1000, Rate: 1, RateWindowMs: 1500, ExitDelayMs: 300, Seed: rng.Uint64()})
+		cases = append(cases, c08case{N: 3, Workers: w, ErrPermille: 1000, Rate: 2, RateWindowMs: 3000, ExitDelayMs: 300, Seed: rng.Uint64()})
 	}
 	return cases
 }
